@@ -108,11 +108,11 @@ Definition mstate := (heap * book)%type.
    around the SAME attribute dictionaries, so an edge update on the derived template was an edge update on its base. *)
 Definition fixed_state_carry : bool := true.
 Definition fixed_shared_edge_dicts : bool := true.
-(* fixed_D98 (overridable by VERIF_C14_D98_FIXED): false = the code as it is: collect_edges (also behind get_edges) prefixes the
+(* fixed_D98 (overridable by VERIF_C14_D98_FIXED): true since fix D98 (the prefixed attributes go into a new dictionary);
+   false = the mechanism before D98, kept for the `_before_fix` statements: collect_edges (also behind get_edges) prefixes the
    variable paths held as string-valued edge attributes IN the attribute dictionaries of the sub-circuits' templates — a
-   getter that changes the template, once more on every call; true = the repair /verif/fixes/fix_D98.diff (the prefixed
-   attributes go into a new dictionary). *)
-Definition fixed_D98 : bool := false.
+   getter that changed the template, once more on every call. *)
+Definition fixed_D98 : bool := true.
 
 (* what collect_edges (before fix D98) does to the store: `for c_scope, c in self.circuits.items(): edges_tmp = c.collect_edges();
    for .. edge_dict in edges_tmp: edge_dict[key] = f"{c_scope}/{val}"` — the dictionaries in edges_tmp ARE the dictionaries of the
